@@ -8,6 +8,8 @@ from checks import query_common as qc
 def check(run, replay):
     thorough = run.tier == "thorough"
     binary = run.build("queryrun")
+    if not replay:
+        qc.model_check_laws(run, thorough)
     n = 20000 if thorough else 2500
     cases = qc.gen_cases(run, n, 5, "a")
     viol, executed, used = [], 0, 0
